@@ -91,11 +91,14 @@ impl CosetTable {
     }
 
     fn compact(&self) -> CosetTable {
+        // number the classes by their smallest member, so that the class of
+        // row 0 stays row 0
         let mut n = 0;
-        let mut old_to_new = vec![0; self.len()];
+        let mut old_to_new = vec![usize::MAX; self.len()];
         for k in 0..self.len() {
-            if self.canon(k) == k {
-                old_to_new[k] = n;
+            let c = self.canon(k);
+            if old_to_new[c] == usize::MAX {
+                old_to_new[c] = n;
                 n += 1;
             }
         }
